@@ -201,6 +201,33 @@ fn gen_attempt(r: &mut Rng, idx: usize, timeout_ms: u64, deviate: bool) -> Attem
     a
 }
 
+/// Digests that are wrong in a structured way (what a hand-rolled comparison might let through).
+fn near_miss_digest(good: &[u8; 16], kind: u32, a: u32, b: u32) -> [u8; 16] {
+    let mut d = *good;
+    match kind % 6 {
+        0 => d[(a % 16) as usize] ^= 1 << (b % 8),
+        1 => {
+            // the same difference in both 8-byte halves
+            let mask = (1u8 << (b % 8)) | (a as u8 & 0x41);
+            let mask = if mask == 0 { 1 } else { mask };
+            d[(a % 8) as usize] ^= mask;
+            d[(a % 8) as usize + 8] ^= mask;
+        }
+        2 => d.rotate_left(8),
+        3 => d.reverse(),
+        4 => d.rotate_left(1 + (a % 15) as usize),
+        _ => {
+            for x in d.iter_mut() {
+                *x ^= 0xff;
+            }
+        }
+    }
+    if d == *good {
+        d[0] ^= 1;
+    }
+    d
+}
+
 fn gen_api_steps(r: &mut Rng) -> Vec<ApiStep> {
     let n = r.range(3, 12) as usize;
     let ops = ["begin", "name", "status", "complement", "challenge", "reply", "ack", "disconnect"];
@@ -209,7 +236,7 @@ fn gen_api_steps(r: &mut Rng) -> Vec<ApiStep> {
     let ordered = r.chance(1, 2);
     for i in 0..n {
         let op = if ordered && r.chance(3, 4) { ops[i % ops.len()] } else { *r.pick(&ops) };
-        out.push(ApiStep { op: op.to_string(), arg: r.below(8) as u32, flags: gen_flags(r), challenge: r.next_u32() });
+        out.push(ApiStep { op: op.to_string(), arg: r.below(14) as u32, flags: gen_flags(r), challenge: r.next_u32() });
     }
     out
 }
@@ -450,9 +477,8 @@ async fn peer_attempt(w: Arc<World>, mut conn: ServerConn, a: Attempt, cookie: S
     let valid_ack = wire::hs_ack(&wire::digest(&cookie, cc));
     let ack_frame: Vec<u8> = match a.ack.as_str() {
         "random" => {
-            let mut d = wire::digest(&cookie, cc);
-            d[w.draw(16) as usize] ^= 1 << w.draw(8);
-            wire::hs_ack(&d)
+            let good = wire::digest(&cookie, cc);
+            wire::hs_ack(&near_miss_digest(&good, w.draw(6), w.draw(16), w.draw(8)))
         }
         "wrong_cookie" => wire::hs_ack(&wire::digest(&format!("{}x", cookie), cc)),
         "peer_challenge" => wire::hs_ack(&wire::digest(&cookie, a.peer_challenge)),
@@ -794,7 +820,7 @@ fn api_history(w: &Arc<World>, p: &Plan) {
             }
             "ack" => {
                 // which digest does the "peer" present?
-                let kind = s.arg % 6;
+                let kind = s.arg % 7;
                 let digest: Option<[u8; 16]> = match kind {
                     0 | 1 => latest_issued.map(|c| wire::digest(&p.cookie, c)),
                     2 => {
@@ -807,6 +833,7 @@ fn api_history(w: &Arc<World>, p: &Plan) {
                     }
                     3 => latest_theirs.map(|(c, _)| wire::digest(&p.cookie, c)),
                     4 => Some(wire::digest(&format!("{}!", p.cookie), latest_issued.unwrap_or(0))),
+                    5 => latest_issued.map(|c| near_miss_digest(&wire::digest(&p.cookie, c), s.flags as u32, s.challenge, s.challenge >> 8)),
                     _ => None,
                 };
                 let data = match digest {
